@@ -9,6 +9,7 @@ import (
 
 	"verifharness/internal/core"
 	"verifharness/internal/prng"
+	"verifharness/internal/reg"
 )
 
 // C16 — protocol configuration options and PDU session bitmaps round-trip.
@@ -45,6 +46,30 @@ func c16Roundtrip(c *core.Ctx, k *core.Case) {
 		}
 		if r.Chance(1, 4) {
 			u.id = []uint16{0x0000, 0xffff, 0x000d, 0x0003, 0x8021, 0x0010, 0x0001, 0x000a}[r.Intn(8)]
+		}
+		if r.Chance(1, 4) {
+			// the identifiers the sources of the tree mention (protocol ids, container ids) and
+			// contents shaped as what such a unit carries: a PPP packet (code, identifier,
+			// 16-bit length, data) with consistent or short length field and zero / non-zero
+			// padding behind it, or an address / MTU sized value
+			ids := pcoIDs
+			for _, v := range reg.DictInts {
+				if v > 0 && v <= 0xffff {
+					ids = append(ids[:len(ids):len(ids)], uint16(v))
+				}
+			}
+			u.id = ids[r.Intn(len(ids))]
+			switch r.Intn(4) {
+			case 0:
+				u.val = pppUnit(r, u.id, r.Range(4, 40), r.Range(1, 12), true)[3:]
+			case 1:
+				u.val = pppUnit(r, u.id, r.Range(4, 40), r.Range(1, 12), false)[3:]
+			case 2:
+				u.val = pppUnit(r, u.id, r.Range(4, 40), 0, true)[3:]
+			default:
+				u.val = r.Bytes([]int{0, 1, 2, 4, 8, 16}[r.Intn(6)])
+			}
+			c.Cover("pco_contents", "protocol-shaped")
 		}
 		units = append(units, u)
 		pu := nasConvert.NewProtocolOrContainerUnit()
